@@ -25,14 +25,22 @@ const PAD: usize = 32;
 pub struct Guarded {
     pub all: Vec<u8>,
     pub cap: usize,
+    /// where the buffer starts inside `all`
+    pub off: usize,
 }
+/// successive buffers start at successive addresses modulo 8: nothing may depend on the alignment of a
+/// caller's byte slice
+static ALIGN_ROT: std::sync::atomic::AtomicUsize = std::sync::atomic::AtomicUsize::new(0);
 impl Guarded {
     pub fn new(cap: usize) -> Self {
-        let mut all = vec![CANARY; cap + 2 * PAD];
-        for b in &mut all[PAD..PAD + cap] {
+        let mut all = vec![CANARY; cap + 2 * PAD + 8];
+        let shift = ALIGN_ROT.fetch_add(1, std::sync::atomic::Ordering::Relaxed) % 8;
+        let base = all.as_ptr() as usize + PAD;
+        let off = PAD + (shift + 8 - base % 8) % 8;
+        for b in &mut all[off..off + cap] {
             *b = FILL;
         }
-        Guarded { all, cap }
+        Guarded { all, cap, off }
     }
     pub fn with(data: &[u8]) -> Self {
         let mut g = Guarded::new(data.len());
@@ -40,14 +48,14 @@ impl Guarded {
         g
     }
     pub fn buf(&mut self) -> &mut [u8] {
-        let c = self.cap;
-        &mut self.all[PAD..PAD + c]
+        let (o, c) = (self.off, self.cap);
+        &mut self.all[o..o + c]
     }
     pub fn mem(&self) -> &[u8] {
-        &self.all[PAD..PAD + self.cap]
+        &self.all[self.off..self.off + self.cap]
     }
     pub fn intact(&self) -> bool {
-        self.all[..PAD].iter().all(|b| *b == CANARY) && self.all[PAD + self.cap..].iter().all(|b| *b == CANARY)
+        self.all[..self.off].iter().all(|b| *b == CANARY) && self.all[self.off + self.cap..].iter().all(|b| *b == CANARY)
     }
 }
 
@@ -1238,6 +1246,34 @@ pub fn gen_c10(r: &mut Rng, thorough: bool, out: &mut Vec<String>) {
                     } else {
                         out.push(format!("crcde {} {} {}", alg, t, hex(&c)));
                     }
+                }
+            }
+        }
+        // structured damage confined to the checksum: byte order, rotations, complement, off by one
+        if nb >= 1 {
+            let (pay, ck) = f.split_at(paylen);
+            let mut variants: Vec<Vec<u8>> = Vec::new();
+            variants.push(ck.iter().rev().copied().collect());
+            variants.push(ck.iter().map(|b| !b).collect());
+            variants.push(ck.iter().map(|b| b.swap_bytes().reverse_bits()).collect());
+            let mut rot = ck.to_vec();
+            rot.rotate_left(1);
+            variants.push(rot);
+            let mut inc = ck.to_vec();
+            inc[0] = inc[0].wrapping_add(1);
+            variants.push(inc);
+            variants.push(vec![0; nb]);
+            variants.push(vec![0xFF; nb]);
+            if nb >= 2 {
+                let mut sw = ck.to_vec();
+                sw.swap(0, 1);
+                variants.push(sw);
+            }
+            for c in variants {
+                if c != ck {
+                    let mut g = pay.to_vec();
+                    g.extend_from_slice(&c);
+                    out.push(format!("crcdex {} {} {} {}", alg, t, paylen, hex(&g)));
                 }
             }
         }
